@@ -23,8 +23,7 @@ THEOREMS = ["Pyvsc.C16.exec_balanced", "Pyvsc.C16.construct_idle", "Pyvsc.C16.do
             "Pyvsc.C16.randomizeWith_idle", "Pyvsc.C16.history_idle"]
 
 
-class FaultInjected(Exception):
-    pass
+FaultInjected = common.FaultInjected
 
 
 FAULT = {"pre": None, "post": None}
@@ -92,6 +91,10 @@ def body_shape(stmts):
             out.append({"block": []}) if False else out.append("s0")
         elif k == "implies":
             out.append({"block": body_shape(s["b"])})
+        elif k == "foreach":
+            out.append({"block": body_shape(s["body"])})
+            if _has_raise(s["body"]):
+                return out
         elif k == "if":
             out.append({"block": body_shape(s["t"])})
             if _has_raise(s["t"]):
@@ -111,7 +114,7 @@ def _has_raise(stmts):
     for s in stmts:
         if s["k"] == "raise":
             return True
-        for key in ("t", "b", "else"):
+        for key in ("t", "b", "else", "body"):
             if isinstance(s.get(key), list) and _has_raise(s[key]):
                 return True
         for ei in s.get("elifs", []) or []:
@@ -140,6 +143,8 @@ def positions(stmts, prefix=()):
         out.append(prefix + (i,))
         if s["k"] == "implies":
             out.extend(positions(s["b"], prefix + (i, "b")))
+        elif s["k"] == "foreach":
+            out.extend(positions(s["body"], prefix + (i, "body")))
         elif s["k"] == "if":
             out.extend(positions(s["t"], prefix + (i, "t")))
             for j, ei in enumerate(s["elifs"]):
@@ -226,7 +231,25 @@ def run_history(S, vsc, ops, scns):
         del S.EV[:]
         try:
             with common.quiet():
-                if k == "construct":
+                if k == "construct" and op["scn"].get("lists") is not None:
+                    import listlib as LL
+                    lscn = op["scn"]
+
+                    def pre_randomize(self):
+                        if FAULT["pre"] is self:
+                            raise FaultInjected()
+
+                    def post_randomize(self):
+                        if FAULT["post"] is self:
+                            raise FaultInjected()
+                    cls = LL.build_class(lscn, {"pre_randomize": pre_randomize, "post_randomize": post_randomize})
+                    o = cls()
+                    S.set_values(o, lscn)
+                    names = lscn["_names"]
+                    emit = (lambda it, stmts, _scn=lscn: LL.emit_stmts(it, _scn, stmts, {}))
+                    objs[op["id"]] = (o, lscn, names)
+                    emits[op["id"]] = emit
+                elif k == "construct":
                     cls, names, emit = make_class(S, op["scn"], vsc, op.get("init", False))
                     o = cls()
                     S.set_values(o, op["scn"])
@@ -254,7 +277,7 @@ def run_history(S, vsc, ops, scns):
         rec["stacks"] = read_stacks(vsc, [x[0] for x in objs.values()])
         if k in ("randomize", "with") and op["obj"] in objs:
             o, scn, names = objs[op["obj"]]
-            rec["values"] = S.get_values(o, scn)
+            rec["values"] = S.get_values(o, scn) + [[int(x) for x in getattr(o, l["name"])] for l in scn.get("lists") or []]
             rsets, uncon, bounds, btors, draws = S.split_events(list(S.EV))
             rec["hard"] = [[S.sexp(t) for t in S.parse_btor(bt, rs["n_soft"])["hard"]] for rs, bt in zip(rsets, btors)]
         elif k == "construct" and op["id"] in objs:
@@ -286,17 +309,36 @@ def gen_history(rng):
     k2 = {"fields": k2f, "blocks": [{"name": "c0", "stmts": [
         {"k": "expr", "e": B("lt", F(0), F(1))}, {"k": "solve_order", "before": [0], "after": [1]},
         {"k": "expr", "e": B("gt", F(1), F(2))}]}]}
+    # third class: a list with foreach / sum / unique, so that the array constraint builder installs overrides
+    # (rolled back when the call ends, however it ends)
+    k3 = {"fields": [solvecheck.fld("x", 4), solvecheck.fld("n", 3, rand=False, val=5)],
+          "lists": [{"name": "l0", "w": 3, "s": False, "rand": True, "randsz": False, "init": [0] * rng.randint(2, 3)}],
+          "blocks": [{"name": "c0", "stmts": [
+              {"k": "foreach", "l": 0, "it": True, "idx": True, "body": [
+                  {"k": "expr", "e": B("le", {"k": "it"}, F(1))},
+                  {"k": "if", "c": B("gt", {"k": "idx"}, I(0)), "elifs": [], "else": None,
+                   "t": [{"k": "expr", "e": B("ne", {"k": "elem", "l": 0, "idx": {"k": "idx"}},
+                                                   {"k": "elem", "l": 0, "idx": B("sub", {"k": "idx"}, I(1))})}]}]},
+              {"k": "expr", "e": B("eq", {"k": "sum", "l": 0}, F(0))}]}]}
+    inline3 = [{"k": "expr", "e": B("lt", F(0), I(9))},
+               {"k": "foreach", "l": 0, "it": True, "idx": False, "body": [{"k": "expr", "e": B("gt", {"k": "it"}, I(0))}]}]
     fs = k1["fields"]
     inline = g.stmts(fs, 1, 1, 2)
     rnd = [i for i, f in enumerate(fs) if f["rand"] and not f["enums"]]
     base = [{"op": "construct", "id": "o1", "scn": k1},
-            {"op": "randomize", "obj": "o1", "seed": rng.randrange(1 << 30)}]
+            {"op": "randomize", "obj": "o1", "seed": rng.randrange(1 << 30)},
+            {"op": "construct", "id": "o4", "scn": k3},
+            {"op": "randomize", "obj": "o4", "seed": rng.randrange(1 << 30)}]
     tail = [{"op": "construct", "id": "o2", "scn": k2},
             {"op": "randomize", "obj": "o2", "seed": rng.randrange(1 << 30)},
             {"op": "randomize", "obj": "o1", "seed": rng.randrange(1 << 30)},
             {"op": "with", "obj": "o1", "inline": inline, "seed": rng.randrange(1 << 30)},
             {"op": "construct", "id": "o3", "scn": k1},
-            {"op": "randomize", "obj": "o3", "seed": rng.randrange(1 << 30)}]
+            {"op": "randomize", "obj": "o3", "seed": rng.randrange(1 << 30)},
+            {"op": "randomize", "obj": "o4", "seed": rng.randrange(1 << 30)},
+            {"op": "with", "obj": "o4", "inline": inline3, "seed": rng.randrange(1 << 30)},
+            {"op": "construct", "id": "o5", "scn": k3},
+            {"op": "randomize", "obj": "o5", "seed": rng.randrange(1 << 30)}]
     faults = []
     # (a) construction faults: every position of every block, and the user's __init__
     for bi, b in enumerate(sorted(k1["blocks"], key=lambda b: b["name"])):
@@ -322,6 +364,23 @@ def gen_history(rng):
         w = fs[i]["w"]
         faults.append({"op": "with", "obj": "o1", "seed": 5, "fault": "internal", "what": "exception-in-solve",
                        "inline": [{"k": "expr", "e": B("eq", {"k": "psel", "e": F(i), "hi": w + 1, "lo": w}, I(1))}]})
+    # (f) the list class: construction faults at every position (foreach bodies included), with-body faults, callbacks,
+    # an unsatisfiable call and an exception inside the solve — while overrides installed by the array builder exist
+    for b in k3["blocks"]:
+        for pos in positions(b["stmts"]):
+            bad = copy.deepcopy(k3)
+            bad["blocks"][0]["stmts"] = insert_raise(bad["blocks"][0]["stmts"], pos)
+            faults.append({"op": "construct", "id": "bad", "scn": bad, "what": "list-constraint-body:%s" % list(pos)})
+    for pos in positions(inline3):
+        faults.append({"op": "with", "obj": "o4", "inline": insert_raise(inline3, pos), "seed": rng.randrange(1 << 30),
+                       "what": "list-with-body:%s" % list(pos)})
+    faults.append({"op": "randomize", "obj": "o4", "seed": 5, "fault": "pre", "what": "list-pre_randomize"})
+    faults.append({"op": "randomize", "obj": "o4", "seed": 5, "fault": "post", "what": "list-post_randomize"})
+    faults.append({"op": "with", "obj": "o4", "seed": 5, "fault": "unsat", "what": "list-unsat",
+                   "inline": [{"k": "foreach", "l": 0, "it": True, "idx": False, "body": [{"k": "expr", "e": B("gt", {"k": "it"}, I(6))}]},
+                              {"k": "expr", "e": B("lt", F(0), I(3))}]})
+    faults.append({"op": "with", "obj": "o4", "seed": 5, "fault": "internal", "what": "list-exception-in-solve",
+                   "inline": [{"k": "expr", "e": B("eq", {"k": "psel", "e": F(0), "hi": 5, "lo": 4}, I(1))}]})
     return base, faults, tail
 
 
@@ -412,7 +471,8 @@ def main():
             ck.sample(s)
     ck.cov.update({"programs": ck.counts.get("eval_histories", 0), "evaluations": ck.counts.get("eval_fault_runs", 0),
                    "distinct_nontrivial": ck.counts.get("eval_fault_runs", 0),
-                   "rule": "generated class + fixed second class (with solve_order) and a history construct/randomize/randomize_with over both; "
+                   "rule": "generated class + fixed second class (with solve_order) + a list class (foreach with index guard and neighbour relation, sum) "
+                           "and a history construct/randomize/randomize_with over them; "
                            "for each history EVERY fault position is run: a raise before/after/inside every statement of every constraint "
                            "body during construction (nested if/else-if/else/implies included), in the user's __init__, at every position "
                            "of the randomize_with body, in pre_randomize and post_randomize, an unsatisfiable inline block, an exception "
